@@ -180,6 +180,10 @@ func estimatePayeeRange(tx *ast.Transaction, payee string) ast.Range {
 	if tx.Status != ast.StatusNone {
 		startCol += 2
 	}
+	// The parser records where the description starts; a secondary date, a code or extra blanks move it.
+	if tx.DescriptionPos.Line == tx.Date.Range.Start.Line && tx.DescriptionPos.Column > 0 {
+		startCol = tx.DescriptionPos.Column
+	}
 
 	payeeLen := lsputil.UTF16Len(payee)
 	return ast.Range{
